@@ -15,6 +15,7 @@ import contextlib
 import io
 import random
 import re
+import traceback
 
 from hypothesis import strategies as st
 
@@ -159,7 +160,7 @@ def make_op_data(np, case, i, op, X, y, rlo, rhi):
                 side = rng.random() < 0.5
                 if style < 0.5:
                     off = rng.uniform(0.01, 0.5)               # clearly outside
-                elif style < 0.8 or op["kind"] == "test":
+                elif style < 0.8 or op["kind"] == "test" or zone != "partly":
                     off = rng.uniform(0.0003, 0.004)           # scaled 0.00104..0.0047: just below the threshold
                 else:
                     off = rng.uniform(0.00001, 0.00009)        # inside the library's tolerance band (either outcome)
@@ -337,7 +338,7 @@ def run(case):
             "split=1.0" if case["split"] >= 1.0 else "split<1")
 
     cl, learn_text = learn(np, deml, case, X, y, (rlo.copy(), rhi.copy()) if user_range else None)
-    combis, _ = cl.get_density_estimation_results()
+    combis, des = cl.get_density_estimation_results()
 
     # ---- the scaling fixed at learning time --------------------------------------------------------------------
     g_lo, g_hi = [np.array(v, dtype=float) for v in cl.get_dataset_range()]
@@ -378,6 +379,17 @@ def run(case):
     if len(combis) != k:
         out.bad(sub + "/learning/number-of-classificators", "%d classificators for %d classes" % (len(combis), k))
         return out
+
+    # ---- every per-class estimator was trained on the learning samples *in the learned scaling* ------------------
+    Lp, Ll = np.asarray(L[0], dtype=float).reshape(-1, d), np.asarray(L[1])
+    for c, de in enumerate(des):
+        trained = np.asarray(de.data[0] if isinstance(de.data, tuple) else de.data, dtype=float).reshape(-1, d)
+        sel = np.ones(len(Ll), dtype=bool) if case["ovo"] else (Ll == c)
+        msg = multiset_mismatch(np, trained, [0] * len(trained), Lp[sel], [0] * int(sel.sum()))
+        if msg:
+            out.bad(sub + "/scaling/estimator-data-not-in-learned-scaling", "class %d: data of the DensityEstimation object vs "
+                    "learning samples in the learned scaling: %s" % (c, msg))
+            return out
 
     # ---- the testing part evaluated at learning time -----------------------------------------------------------
     calc = np.asarray(cl.get_calculated_classes_testset())
@@ -464,17 +476,38 @@ def run(case):
         cap = io.StringIO()
         raised = None
         res = None
+        crashed_print = False
         try:
             with contextlib.redirect_stdout(cap):
                 if op["kind"] == "call":
                     res = cl(ds, print_removed=bool(op["print_removed"]))
                 else:
                     res = cl.test_data(ds, print_output=bool(op["print_output"]), print_removed=bool(op["print_removed"]),
-                                       print_incorrect_points=bool(op["print_output"]))
+                                       print_incorrect_points=bool(op.get("print_incorrect")))
         except ValueError as e:
             if not expect_raise:
                 raise
             raised = e
+        except IndexError as e:
+            # F-C19-b: test_data(print_output=True, print_incorrect_points=True) hands _print_evaluation the last
+            # <survivors incl. unlabelled> entries of the density list instead of the last <labelled survivors> entries; if
+            # the list is shorter than that the (negative) slice start wraps around and indexing a wrong point fails.
+            # The number of stored densities equals the number of calculated classes (a __call__ removes what it adds).
+            frames = [f.name for f in traceback.extract_tb(e.__traceback__)]
+            if not (op["kind"] == "test" and op["print_output"] and op.get("print_incorrect") and frames[-1] == "_print_evaluation"):
+                raise
+            keep_ = [j for j in range(len(S)) if status[j] == 1]
+            u_, m_ = sum(1 for j in keep_ if labels[j] >= 0), sum(1 for j in keep_ if labels[j] < 0)
+            n_before = len(calc_before)
+            after_ = np.asarray(cl.get_calculated_classes_testset())[n_before:]
+            wrong_ = [t for t, j in enumerate([j for j in keep_ if labels[j] >= 0]) if t < len(after_) and int(after_[t]) != int(labels[j])]
+            if m_ > n_before and wrong_ and max(wrong_) >= min(m_ - n_before, n_before + u_):
+                out.bad(sig + "/test/print-incorrect-points-IndexError/density-slice-counts-unlabelled-survivors",
+                        "%s: %d unlabelled survivors, %d densities stored before the call, wrong point index %d: %s"
+                        % (tag, m_, n_before, max(wrong_), e))
+                crashed_print = True
+            else:
+                raise
         if expect_raise:
             out.cls("entirely-outside")
             if raised is None:
@@ -496,7 +529,7 @@ def run(case):
             if len(new_classes):
                 out.bad(sig + "/outside/classes-recorded-for-rejected-call", "%s: %d classes appended" % (tag, len(new_classes)))
             check_report(out, sig, cap.getvalue(), [int(v) for v in labels], bool(op["print_removed"]))
-            if [s_ for s_, _ in out.violations if "/bookkeeping/" not in s_]:
+            if [s_ for s_, _ in out.violations if "/bookkeeping/" not in s_ and "/print-incorrect-points-IndexError/" not in s_]:
                 return out
             continue
 
@@ -527,10 +560,13 @@ def run(case):
                         "survivors, %d removed)" % (tag, len(new_classes), len(used), len(unl), len(S) - len(keep)))
                 return out
             check_classes(np, out, sig + "/test", combis, S[used], new_classes, tag)
-            if not isinstance(res, dict):
+            if crashed_print:
+                pass                    # no summary was returned (known finding); everything else is still checked
+            elif not isinstance(res, dict):
                 out.bad(sig + "/summary/not-a-dict", "%s: %r" % (tag, type(res).__name__))
                 return out
-            check_summary(np, out, sig, res, [int(labels[j]) for j in used], new_classes, tag)
+            else:
+                check_summary(np, out, sig, res, [int(labels[j]) for j in used], new_classes, tag)
             removed = [j for j in range(len(S)) if status[j] == -1]
             check_report(out, sig, cap.getvalue(), [int(labels[j]) for j in removed], bool(op["print_removed"]))
             # bookkeeping of the object: testing data <-> calculated classes, omitted collection
@@ -577,7 +613,7 @@ def run(case):
         max_removed, max_kept = max(max_removed, n_removed), max(max_kept, n_kept)
         if i == 0:
             first = (kept_pos.copy(), list(kept_cls), P, zone)
-        if [s for s, _ in out.violations if "/bookkeeping/" not in s]:
+        if [s_ for s_, _ in out.violations if "/bookkeeping/" not in s_ and "/print-incorrect-points-IndexError/" not in s_]:
             return out
 
     # ---- the data of the first operation again: same classes -----------------------------------------------------
@@ -635,7 +671,7 @@ def _strategy(mode):
                 case.update(lmin=lmin, lmax=draw(st.integers(lmin, 3)))
             else:
                 case.update(lmin=1, lmax=draw(st.sampled_from([2, 2, 3])), max_eval=draw(st.sampled_from([20, 40, 60])))
-            nops = draw(st.integers(1, 3))
+            nops = draw(st.sampled_from([1, 2, 2, 3, 3]))
             ops = []
             for i in range(nops):
                 kind = draw(st.sampled_from(["test", "test", "call"] if i == 0 else ["test", "call", "call"]))
@@ -643,6 +679,7 @@ def _strategy(mode):
                 ops.append(dict(kind=kind, zone=zone, n=draw(st.integers(1, 14)) if zone != "partly" else draw(st.integers(2, 14)),
                                 unl=draw(st.sampled_from([0.0, 0.25, 0.5, 1.0] if kind == "call" else [0.0, 0.25, 0.5])),
                                 print_removed=draw(st.booleans()), print_output=draw(st.booleans()),
+                                print_incorrect=draw(st.booleans()),
                                 raw=draw(st.sampled_from([False, False, False, True]))))
             case["ops"] = ops
             case["repeat"] = draw(st.booleans())
@@ -656,7 +693,8 @@ def _fixed(mode):
         base = dict(rng=12345, k=3, d=2, n=[20, 25, 30], layout="blobs", affine="shifted", orig_unl=3, split=0.7, even=True,
                     shuffle=True, range_mode="auto", ra=0.2, rb=0.2, mode=mode, ovo=False, masslumping=True, lambd=0.0,
                     lmin=1, lmax=3 if mode == "std" else 2, max_eval=40, repeat=True,
-                    ops=[dict(kind="test", zone="partly", n=10, unl=0.25, print_removed=True, print_output=True, raw=False),
+                    ops=[dict(kind="test", zone="partly", n=10, unl=0.25, print_removed=True, print_output=True, print_incorrect=True,
+                              raw=False),
                          dict(kind="call", zone="partly", n=12, unl=0.5, print_removed=True, print_output=False, raw=False),
                          dict(kind="test", zone="outside", n=4, unl=0.0, print_removed=False, print_output=False, raw=False)])
         other = dict(base, rng=777, k=2, n=[15, 40], layout="lattice", split=1.0, even=False, shuffle=False, range_mode="wider",
@@ -722,7 +760,7 @@ def selftest():
     import sparseSpACE.DEMachineLearning as deml
     case = _fixed("std")()[0]
     o = run(case)
-    unknown = [s for s, _ in o.violations if "/bookkeeping/" not in s]
+    unknown = [s for s, _ in o.violations if "/bookkeeping/" not in s and "/print-incorrect-points-IndexError/" not in s]
     assert not unknown, unknown
     Xd, yd = make_dataset(np, case)
     cl, _ = learn(np, deml, case, Xd, yd, None)
@@ -737,8 +775,8 @@ def selftest():
 
 
 SUBS = [
-    Sub("std", _strategy("std"), run, dict(quick=1600, thorough=16000), case_timeout=120,
-        budget_s=dict(quick=40, thorough=420), fixed_cases=_fixed("std")),
-    Sub("dw", _strategy("dw"), run, dict(quick=480, thorough=4000), case_timeout=180,
-        budget_s=dict(quick=45, thorough=480), fixed_cases=_fixed("dw")),
+    Sub("std", _strategy("std"), run, dict(quick=4000, thorough=40000), case_timeout=120,
+        budget_s=dict(quick=25, thorough=300), fixed_cases=_fixed("std")),
+    Sub("dw", _strategy("dw"), run, dict(quick=1200, thorough=10000), case_timeout=180,
+        budget_s=dict(quick=30, thorough=300), fixed_cases=_fixed("dw")),
 ]
